@@ -166,6 +166,17 @@ CHECKS.update({
             BASE_NOTE + " pytz 2026.3 / dateutil 2.9 are objects under observation: their tables are the oracle for what their API exhibits.", "3/C19"),
 })
 
+CHECKS.update({
+    "C20": ("translation_validation",
+            "repeated real compilations under varied hash seeds/working directories compared byte for byte; generated artefacts imported/compiled and cross-checked against each other and zic",
+            "Programs are (source, scope, language/action) combinations compiled twice by tzcompiler.py in separate processes "
+            "(different PYTHONHASHSEED, cwd, output dir); generated Python tables are imported and compared with the in-memory "
+            "tables, zones.txt with the emitted set, every stated count with entries counted by importing/compiling, freshly "
+            "generated basic tables with extended ones probe by probe, and the checked-in tools/zonedbpy (plus zinfo.py) with "
+            "zic on its own recorded lines.",
+            BASE_NOTE + " Two hash seeds per program cannot prove order-independence; set-order bugs show with high probability.", "3/C20"),
+})
+
 PLANNED = {
 }
 
